@@ -140,7 +140,11 @@ func (b Bytes) Less(v Value) bool {
 		return b.Kind() < v.Kind()
 	}
 
-	return string(b.b) < string(v.(*Bytes).b)
+	c := v.(Bytes)
+	if b.offset != c.offset {
+		return b.offset < c.offset
+	}
+	return string(b.b) < string(c.b)
 }
 
 // Negate returns {(negateTag): b}.
